@@ -40,6 +40,7 @@ void apply_cfg(const Json &cfg) {
     sim::tbbcfg.steal_pm = (int) cfg.get_int("steal_pm", 500);
     sim::tbbcfg.hw = (int) cfg.get_int("hw", 16);
     sim::tbbcfg.steal_max_size = (int) cfg.get_int("steal_max_size", 0);
+    sim::tbbcfg.steal_budget = (int) cfg.get_int("steal_budget", 0);
 }
 
 void collect_tbb(RunResult &r, sim::ProcCtx &proc) {
@@ -52,6 +53,7 @@ void collect_tbb(RunResult &r, sim::ProcCtx &proc) {
     if (t.body_on_found) r.fired["body_on_found_accumulator"] += t.body_on_found;
     if (t.push_other_strand) r.fired["push_interleave"] += t.push_other_strand;
     if (t.reduce_multi_run) r.fired["reduce_multi_run"] += t.reduce_multi_run;
+    if (t.body_after_join_none) r.fired["body_after_join_of_two_not_found"] += t.body_after_join_none;
     if (t.regions_gt64) r.fired["region_range_gt64"] += t.regions_gt64;
     if (t.regions_gt256) r.fired["region_range_gt256"] += t.regions_gt256;
     if (t.regions_gt1024) r.fired["region_range_gt1024"] += t.regions_gt1024;
@@ -194,7 +196,7 @@ public:
         if (p == "C09") { o.inexact = true; o.allow_int = false; }
         if (thorough && p == "C03" && rng.chance(250)) { o.max_n = 30; o.max_m = 80; } else { o.max_n = 9; o.max_m = 36; }
         if (p == "C20") { o.max_n = 7; o.max_m = 14; o.allow_int = false; }
-        if (p == "C03") { o.core_sat_pm = 60; o.big_core_pm = 80; o.wide_pm = 50; o.dense_pm = prop == "C07" ? 4 : 12; }
+        if (p == "C03") { o.core_sat_pm = 120; o.big_core_pm = 100; o.wide_pm = 50; o.dense_pm = prop == "C07" ? 4 : 12; }
         if (p == "C20") {} else if (p == "C03") { o.boundary_pm = prop == "C07" ? 30 : 6; o.boundary_max_n = 129; }
         if (c05) { o.multi_pm = 200; o.dense_pm = 0; o.wide_pm = 20; }
         bool approx = p == "C03" && (c05 || rng.chance(330));
@@ -208,7 +210,8 @@ public:
         cfg["split_pm"] = (int) rng.range(150, 950);
         cfg["steal_pm"] = (int) rng.range(150, 950);
         Json cmin = Json::object(); cmin["W"] = 1; cmin["split_pm"] = 0; cmin["steal_pm"] = 0;
-        if (rng.chance(300)) { cfg["steal_max_size"] = (int) rng.range(1, 3); cfg["split_pm"] = (int) rng.range(800, 980); cfg["steal_pm"] = (int) rng.range(500, 950); cmin["steal_max_size"] = 0; }
+        if (rng.chance(g.family == "core_satellites" ? 700 : 300)) { cfg["steal_max_size"] = (int) rng.range(1, 3); cfg["split_pm"] = (int) rng.range(800, 980); cfg["steal_pm"] = (int) rng.range(500, 950); cmin["steal_max_size"] = 0; }
+        if (p != "C20" && rng.chance(250)) { cfg["steal_budget"] = (int) rng.range(1, 2); cfg["split_pm"] = (int) rng.range(850, 990); cfg["steal_pm"] = (int) rng.range(100, 600); cmin["steal_budget"] = 0; }
         if (p == "C20") {
             Json calls = Json::array();
             int ncalls = (int) rng.range(1, 6);
